@@ -337,6 +337,7 @@ def run(check, an: Analysis):
     # ---- T ------------------------------------------------------------------
     from . import c07
     c07.check_immediacy(check, an, 'T')
+    c07.check_run_root(check, an, 'T')
     _scope.check_child_failure_recorded(check, an, 'T')
     check.stats.update(an.stats())
 
